@@ -1,0 +1,58 @@
+//! Verification hooks (`--cfg ohkami_verif` only). Thin wrappers that expose
+//! crate-private entry points unchanged; nothing here alters behaviour.
+
+pub use crate::ohkami::routing::__verif__::*;
+
+use crate::{Request, Response, Ohkami};
+use std::pin::Pin;
+
+/* ---- H2: I/O seams ---- */
+
+pub struct Router(crate::router::r#final::Router);
+impl Router {
+    pub fn new(ohkami: Ohkami) -> Self {
+        let (router, _) = ohkami.into_router().finalize();
+        Self(router)
+    }
+    pub async fn handle(&self, req: &mut Request) -> Response {
+        self.0.handle(req).await
+    }
+}
+
+pub fn request_new(ip: std::net::IpAddr) -> Request {
+    Request::init(ip)
+}
+pub fn request_clear(req: &mut Request) {
+    req.clear()
+}
+pub async fn request_read(
+    req:    Pin<&mut Request>,
+    stream: &mut (impl crate::__rt__::AsyncRead + Unpin),
+) -> Result<Option<()>, Response> {
+    req.read(stream).await
+}
+/// returns whether the response asked for a protocol upgrade
+pub async fn response_send(
+    res:  Response,
+    conn: &mut (impl crate::__rt__::AsyncWrite + Unpin),
+) -> bool {
+    !res.send(conn).await.is_none()
+}
+pub fn response_declared_size(res: &Response) -> usize {
+    res.__verif_declared_size()
+}
+
+/* ---- H4: scheduling points ---- */
+
+static SCHED: std::sync::OnceLock<Box<dyn Fn(&'static str) + Send + Sync>> = std::sync::OnceLock::new();
+
+/// install the callback that every scheduling point calls (once per process)
+pub fn set_sched(f: impl Fn(&'static str) + Send + Sync + 'static) {
+    let _ = SCHED.set(Box::new(f));
+}
+#[inline]
+pub(crate) fn sched(point: &'static str) {
+    if let Some(f) = SCHED.get() {
+        f(point)
+    }
+}
